@@ -19,6 +19,19 @@ class Range0:
     sys.maxsize); used only through len() and slicing"""
 
 
+class _Duck:
+    """a sequence by behaviour: len() and indexing with ints and slices, nothing else"""
+
+    def __init__(self, items):
+        self.items = items
+
+    def __len__(self):
+        return len(self.items)
+
+    def __getitem__(self, i):
+        return _Duck(self.items[i]) if isinstance(i, slice) else self.items[i]
+
+
 class Prop(SeqProp):
     pid = "C19"
     model = "generic"
@@ -319,7 +332,7 @@ class Prop(SeqProp):
             out.append({"kind": "odd-elements", "seed": rng.randrange(1 << 30)})
         # Batcher iterated (for / list / zip) and indexed, over sequences that are not lists: str, bytes, range, tuples of them
         for _ in range(60 if tier == "quick" else 600):
-            out.append({"kind": "batcher-sequences", "n": rng.randint(0, 11), "b": rng.randint(1, 5), "type": rng.randrange(7)})
+            out.append({"kind": "batcher-sequences", "n": rng.randint(0, 11), "b": rng.randint(1, 5), "type": rng.randrange(9)})
         return out
 
     def run_extra(self, desc):
@@ -371,7 +384,10 @@ class Prop(SeqProp):
             data = ["abcdefghijk"[:n], bytes(range(65, 65 + n)), range(10, 10 + n), list(range(n)),
                     ("abcdefghijk"[:n], range(n)),
                     # a tuple with a single member, a tuple with three
-                    (list(range(n)),), (list(range(n)), "abcdefghijk"[:n], [None] * n)][desc["type"]]
+                    (list(range(n)),), (list(range(n)), "abcdefghijk"[:n], [None] * n),
+                    # members that are sequences by behaviour only (`__len__` and `__getitem__` with slices, like arrays of a
+                    # numeric library): not registered with collections.abc.Sequence
+                    (_Duck(list(range(n))), _Duck("abcdefghijk"[:n])), (list(range(n)), _Duck(list(range(n))))][desc["type"]]
             try:
                 if isinstance(data, tuple):
                     # the iterator flavour on the same tuple (its members consumed as iterables): batches of lists in lock-step
@@ -385,7 +401,8 @@ class Prop(SeqProp):
                     want = [tuple(m[j * b:(j + 1) * b] for m in data) for j in range(nb)]
                 else:
                     want = [data[j * b:(j + 1) * b] for j in range(nb)]
-                norm = lambda x: tuple(norm(y) for y in x) if isinstance(x, tuple) else (x if isinstance(x, (str, bytes)) else list(x))
+                norm = lambda x: tuple(norm(y) for y in x) if isinstance(x, tuple) else (
+                    x if isinstance(x, (str, bytes)) else norm(x.items) if isinstance(x, _Duck) else list(x))
                 got_iter = [norm(x) for x in bt]
                 got_idx = [norm(bt[j]) for j in range(len(bt))]
                 want = [norm(x) for x in want]
